@@ -61,7 +61,10 @@ func (c *ConditionClass) MakeInstance() slip.Instance {
 // LoadForm returns a list that can be evaluated to create the class or nil if
 // the class is a built in class.
 func (c *ConditionClass) LoadForm() slip.Object {
-	def := c.StandardClass.LoadForm().(slip.List)
+	def, _ := c.StandardClass.LoadForm().(slip.List)
+	if def == nil {
+		return nil
+	}
 	if report := c.vars["report"]; report != nil {
 		def = append(def, slip.List{slip.Symbol(":report"), report})
 	}
